@@ -145,7 +145,10 @@ func buildPE(l peLayout, fillID string) *peImage {
 		put32(b, sh+28, 0)         // PointerToLinenumbers
 		put16(b, sh+32, 0)
 		put16(b, sh+34, 0)
-		put32(b, sh+36, 0x60000020)
+		// Characteristics: the hash algorithm does not look at them (code, initialised data, data merged with bss that still has
+		// raw bytes, uninitialised-data flag alone, discardable); chosen per section from the image's identity
+		chars := []uint32{0x60000020, 0xC0000040, 0xC00000C0, 0xC0000080, 0x42000040}
+		put32(b, sh+36, chars[int(prbytes(fmt.Sprintf("chars:%s:%d", fillID, k), 1)[0])%len(chars)])
 		img.regions = append(img.regions, peRegion{fmt.Sprintf("sechdr%d", k), sh + 1, sh + 16}, peRegion{fmt.Sprintf("secchar%d", k), sh + 36, sh + 40})
 		img.ptrs = append(img.ptrs, p)
 		if s.size > 0 {
